@@ -723,6 +723,8 @@ let oracle (kind : string) (body : sexp list) (impl : string) : string option =
       let out = (match parse ("(" ^ impl ^ ")") with List l -> List.map tout_of l | _ -> []) in
       if (match o with TRaw -> false | _ -> not (closed_sound_ok out))
       then Some "reject:C17 a delivery, or is_closed() = false, after is_closed() had answered true"
+      else if timed_ok o ls out && not (timed_complete o ls out) && (match o with TTimer _ -> true | _ -> false) then
+        Some "reject:C08 the timer's task was polled when it was due, before unsubscribe(), and did not deliver both its item and the completion"
       else if timed_ok o ls out && not (timed_complete o ls out) then
         Some "reject:C07 a notification was not delivered although its task was polled when it was due (no delay, or the timer its first poll created had elapsed) while the subscriber was still listening - or, for delay_subscription / subscribe_on, although the subscribing task had run: the source's items and terminal must all come through"
       else if timed_ok o ls out then Some "ok"
